@@ -13,13 +13,16 @@ Proved (DESIGN §6 C17):
   `No` / `Maybe` reason is characterised by the branch that produces it, and its message is one
   of the documented ones (the lists of the Spec);
 * ✔ `decide_needs_cover`: without a pseudo-toroidal cover the verdict is `No`;
-* ✔ `invariants_table_wellformed`: what holds of the 235 tokens the parser keeps.
+* ✔ `invariants_table_wellformed`: what holds of the 235 tokens the parser keeps;
+* ✔ `invariants_table_reachable`: every entry's invariant fields are a list `abelian_invariants`
+  can return (zeros first, then a divisibility chain) — an entry failing this is dead.
 
 Not theorems (Spec clauses on every explored case, `open_obligations` in conf/C17.json):
 invariance under renumbering and dual, consistency along covers, soundness of `Yes`.
 -/
 import DSymVerif.Model.Euclidicity
 import DSymVerif.Proofs.EuclidicityTableFacts
+import DSymVerif.Proofs.EuclidicityTableReach
 import DSymVerif.Spec.C17
 
 namespace DSymVerif.C17
@@ -143,6 +146,20 @@ theorem invariants_table_wellformed :
   ⟨Tab.table_length, Tab.token_ok,
    fun s hs => ⟨Tab.stray_not_wellFormed s hs, Tab.stray_in_table s hs⟩,
    Tab.stray_counts.1, Tab.stray_counts.2, Tab.dedup_length, Tab.distinct_wellFormed⟩
+
+/-- **invariants_table_reachable.**  The invariant fields of every well-formed entry form a list
+    that `abelian_invariants` can return: the zeros first (the list is sorted ascending), then the
+    invariant factors, each ≥ 2 and dividing the next (`abelian_invariants` always returns a
+    divisibility chain, Props/C14).  An entry violating this can never equal an output of
+    `orbifold_invariant`, so every symbol of its space group would be rejected by the table
+    filter of `is_euclidean` (defect D16: `…/3/2/3/6/` for H₁ = Z6 × Z6, listed as 2, 3, 6). -/
+theorem invariants_table_reachable :
+    ∀ s ∈ Tables.euclideanInvariants, Tab.wellFormed s = true → Tab.reachable s = true :=
+  fun s hs _ => Tab.token_reachable s hs
+
+example : Tab.reachableInvariants [0, 0, 0] = true ∧ Tab.reachableInvariants [0, 2, 2, 4] = true ∧
+    Tab.reachableInvariants [6, 6] = true ∧ Tab.reachableInvariants [2, 3, 6] = false ∧
+    Tab.reachableInvariants [2, 0] = false := by decide
 
 /-- the syntax check accepts what the model's `invariantString` assembles (an instance: the
     invariant of the cubic tiling `<1.1:1 3:1,1,1,1:4,3,4>`, the table's last entry but the
